@@ -159,6 +159,26 @@ def run(chk):
                 ok2, b = call_guard(lambda d: len(sp.arburg(d, 10, crit)[2]), c * x)
                 batch.add({'ev': 'decision', 'what': 'burg-order-' + crit, 'dt': dt, 'raised': not (ok1 and ok2),
                            'a': a if ok1 else -1, 'b': b if ok2 else -2}, {'c': c, 'seed': chk.seed})
+    # order decisions on many short AR-like records (almost-ties between consecutive orders are where an amplitude-dependent
+    # stopping rule shows): the order chosen for c*x is the order chosen for x
+    import spectrum as sp
+    for i in range(300 if chk.tier == 'quick' else 1500):
+        n = int(rng.choice([16, 24, 32, 48, 64]))
+        if i % 5 == 4:
+            e = rng.randn(n + 20)
+            xs = np.zeros(n + 20)
+            a1, a2 = rng.uniform(-1.2, 1.2), rng.uniform(-0.6, 0.3)
+            for t_ in range(2, n + 20):
+                xs[t_] = a1 * 0.6 * xs[t_ - 1] + a2 * xs[t_ - 2] + e[t_]
+            xs = xs[20:]
+        else:
+            xs = np.convolve(rng.randn(n + 4), [1, 0.7, 0.3, -0.2, 0.1])[4:n + 4]      # (a flat criterion curve: many almost-ties)
+        c = [1e6, 1e-6, 1e3, 37.0][i % 4]
+        crit = ('AIC', 'MDL', 'AICc', 'KIC', 'AKICc', 'FPE')[i % 6] if i % 3 == 2 else ('AIC', 'MDL')[i % 2]
+        ok1, a = call_guard(lambda d: len(sp.arburg(d, min(8, n // 2 - 2), crit)[2]), xs)
+        ok2, b = call_guard(lambda d: len(sp.arburg(d, min(8, n // 2 - 2), crit)[2]), c * xs)
+        batch.add({'ev': 'decision', 'what': 'burg-order-' + crit, 'dt': 'real', 'raised': not (ok1 and ok2),
+                   'a': a if ok1 else -1, 'b': b if ok2 else -2}, {'c': c, 'seed': chk.seed, 'sweep': i, 'x': xs})
     obs.validate(chk, batch, 'obs-scaling',
                  lambda ev, cl: 'C03:%s:%s:%s:%s' % (ev.get('est', ev.get('what')), ev.get('form', 'decision'), ev.get('key', ''), cl),
                  lambda ev, cl: '%s (%s form, %s data) output %s: clause "%s" fails: %s'
